@@ -80,3 +80,47 @@ theorem galois_inverse (n k : ℕ) :
     rw [e]; exact this
   have := h4.pow k
   simpa using this
+
+/-! ### The Montgomery constant: `GenMRedConstant(q) = q^(2^63 - 1) mod 2^64` is the inverse of an odd `q` -/
+
+theorem pow_one_lvc (x : ℤ) : x ^ 1 = x := pow_one x
+
+/-- an odd number to the power 2^(n+1) is 1 modulo 2^(n+3) -/
+theorem odd_pow_two_pow (q : ℤ) (hq : q % 2 = 1) (n : ℕ) :
+    q ^ (2 ^ (n + 1)) ≡ 1 [ZMOD 2 ^ (n + 3)] := by
+  induction n with
+  | zero =>
+    -- q^2 ≡ 1 (mod 8)
+    obtain ⟨k, hk⟩ : ∃ k, q = 2 * k + 1 := ⟨q / 2, by omega⟩
+    apply Int.modEq_iff_dvd.mpr
+    subst hk
+    have h2 : (2 : ℤ) ∣ k * (k + 1) := by
+      rcases Int.even_or_odd k with ⟨m, hm⟩ | ⟨m, hm⟩
+      · exact ⟨m * (k + 1), by rw [hm]; ring⟩
+      · exact ⟨k * (m + 1), by rw [hm]; ring⟩
+    obtain ⟨c, hc⟩ := h2
+    refine ⟨-c, ?_⟩
+    have : (2 * k + 1) ^ 2 = 4 * (k * (k + 1)) + 1 := by ring
+    simp only [pow_one, zero_add]
+    norm_num
+    rw [this, hc]; ring
+  | succ n ih =>
+    obtain ⟨t, ht⟩ := Int.modEq_iff_dvd.mp ih.symm
+    have e : q ^ (2 ^ (n + 1)) = 1 + 2 ^ (n + 3) * t := by linarith
+    have s : q ^ (2 ^ (n + 1 + 1)) = (q ^ (2 ^ (n + 1))) ^ 2 := by
+      rw [← pow_mul, pow_succ]
+    rw [s, e]
+    apply Int.modEq_iff_dvd.mpr
+    refine ⟨-(t + 2 ^ (n + 2) * t ^ 2), ?_⟩
+    ring
+
+/-- the instance used by the contract of GenMRedConstant -/
+theorem odd_pow_2_63 (q : ℤ) (hq : q % 2 = 1) :
+    q ^ (2 ^ 63) ≡ 1 [ZMOD 2 ^ 64] := by
+  have h := odd_pow_two_pow q hq 61
+  have h2 := h.pow 2
+  simp only [one_pow] at h2
+  have e : q ^ (2 ^ 63) = (q ^ (2 ^ (61 + 1))) ^ 2 := by
+    rw [← pow_mul]; norm_num
+  rw [e]
+  exact h2
